@@ -32,6 +32,18 @@ def rule_a(ctx):
   if f is None:
     raise AnalysisError('List._parse_slice vanished')
   problems = []
+  # delegation to CPython's own normaliser: every return is <slice param>.indices(len(self))
+  params = [p for p in A.param_names(f.node) if p != 'self']
+  rets = [n.value for n in ast.walk(f.node) if isinstance(n, ast.Return) and n.value is not None]
+  def _is_indices(e):
+    return (isinstance(e, ast.Call) and isinstance(e.func, ast.Attribute) and e.func.attr == 'indices'
+            and isinstance(e.func.value, ast.Name) and e.func.value.id in params
+            and len(e.args) == 1 and A.unparse(e.args[0]) == 'len(self)')
+  if rets and all(_is_indices(r) for r in rets):
+    ctx.ob('C02.a', f.fq, True,
+           'the defaults of a missing slice start/stop depend on the sign of the step (as in Python)', f.loc)
+    # users of the triple must not re-derive a size from (stop - start) with the sign lost
+    return
   for var in ('start', 'stop'):
     defs = [v for _, v in D.defs_of(f.node, var) if v is not None]
     dflt = [v for v in defs if isinstance(v, ast.IfExp) and f'index.{var} is not None' in A.unparse(v.test)]
@@ -58,6 +70,12 @@ def rule_a(ctx):
 PATH_PARSERS = ('rebind', 'sym_rebind', 'from_value', 'parse')
 
 
+def _is_keypath_ctor(e):
+  """KeyPath(k): one key taken literally (from_value / parse would parse it)."""
+  d = A.call_name(e) if isinstance(e, ast.Call) else None
+  return bool(d) and d.split('.')[-1] == 'KeyPath'
+
+
 def rule_b(ctx):
   idx = ctx.index
   for name in ('update', 'setdefault', 'pop', '__setitem__', '__delitem__', 'popitem'):
@@ -74,7 +92,9 @@ def rule_b(ctx):
         for a in args:
           names, _ = D.backward_slice_names(f.node, A.names_read(a))
           if names & set(params):
-            wrapped = isinstance(a, ast.Call) and (A.call_name(a) or '').endswith('KeyPath') and 'from_value' not in (A.call_name(a) or '')
+            wrapped = _is_keypath_ctor(a) or (
+                isinstance(a, ast.DictComp) and _is_keypath_ctor(a.key)) or (
+                isinstance(a, ast.Dict) and a.keys and all(k is not None and _is_keypath_ctor(k) for k in a.keys))
             if not wrapped:
               bad.append(f'{d}({A.unparse(a, 30)}) at line {c.lineno}')
     ctx.ob('C02.b', f.fq, not bad,
